@@ -1,6 +1,8 @@
 pub mod common;
 pub mod lattice;
 pub mod parse_rt;
+pub mod query;
+pub mod scoping;
 pub mod text;
 
 use crate::drive::Family;
@@ -14,6 +16,9 @@ pub fn all() -> Vec<Box<dyn Family>> {
         Box::new(text::CorpusMut),
         Box::new(parse_rt::ParseTrees),
         Box::new(parse_rt::Literals),
+        Box::new(query::QueryTotal),
+        Box::new(query::QueryAgree),
+        Box::new(scoping::Scoping),
     ]
 }
 
